@@ -144,6 +144,13 @@ VERUS_UNITS = {
             ('!old(self).commands.alive().contains(entity) ==> final(self).commands.log() == old(self).commands.log(),', '!old(self).commands.alive().contains(entity) ==> final(self).commands.log().len() == old(self).commands.log().len() + 1,', 'ReactCommands::insert'),
         ],
     },
+    'world_reactors': {
+        'template': 'world_reactors.rs.tpl',
+        'owners': [(r'Reactor::(add|add_starting_triggers|remove|run)$', ['C16', 'C06']), (r'EntityReactor::(add|remove|system)$', ['C16', 'C06']), (r'EntityWorldLocal::new$', ['C16'])],
+        'negctl': [
+            ('sys: self.inner->Some_0.sys_command, mode: ReactorMode::Persistent }),', 'sys: self.inner->Some_0.sys_command, mode: ReactorMode::Cleanup }),', 'EntityReactor::add'),
+        ],
+    },
     'lemmas': {
         'template': 'lemmas.rs.tpl',
         'owners': [
@@ -220,9 +227,9 @@ PROPS = {
         note=ENVNOTE + '; threads not verified; garbage_collect_entities not under contract',
         explanation='exact reference count up to the despawn request (Kani, real Arc, <=3 clones; lemma L4); collection and concurrency assumed'),
     'C16': dict(category='other', design_ref='DESIGN.md 5/C16 + 9.5',
-        text='Function-level contracts: EntityLocal::{entity,get,get_mut} expose exactly the entity that caused the run and the local data attached to it, writes land on that data, and every accessor panics outside a run of the reactor\'s own system (Kani, loop-free, value symbolic); the run\'s source comes from EntityReactionAccessTracker whose start claims the oldest entry parked for that system (Kani K.tracker.entity, lists L<=3/5; lemma L1); cleanup_reactor_data(id, e) removes the local data iff e\'s registration list holds no entry of reactor id any more and leaves entities without list alone (Kani, lists L<=2, all contents); EntityReactors::{insert,remove,iter_reactors} (Kani); ReactorType::get_entity and ReactorMode::prepare (a world reactor is Persistent => never ref-counted => never collected) (Verus, verbatim). Not covered: EntityReactor::add/remove (command pairs queued through ReactCommands), RevokeToken::iter_unique_entities, and "as last modified by earlier runs" across trees (runner).',
+        text='Function-level contracts: EntityLocal::{entity,get,get_mut} expose exactly the entity that caused the run and the local data attached to it, writes land on that data, and every accessor panics outside a run of the reactor\'s own system (Kani, loop-free, value symbolic); the run\'s source comes from EntityReactionAccessTracker whose start claims the oldest entry parked for that system (Kani K.tracker.entity, lists L<=3/5; lemma L1); cleanup_reactor_data(id, e) removes the local data iff e\'s registration list holds no entry of reactor id any more and leaves entities without list alone (Kani, lists L<=2, all contents); EntityReactors::{insert,remove,iter_reactors} (Kani); ReactorType::get_entity and ReactorMode::prepare (a world reactor is Persistent => never ref-counted => never collected) (Verus, verbatim). Verus (verbatim, generic in the reactor type): Reactor::{add,add_starting_triggers,remove,run} and EntityReactor::{add,remove,system} queue exactly a PERSISTENT registration / a revocation for THE system command held by the reactor\'s resource (no system is spawned, despawned or duplicated), EntityReactor::add attaches the local data first and does nothing for a missing entity, EntityReactor::remove queues one local-data cleanup per unique entity of the removed bundle. Not covered: RevokeToken::iter_unique_entities itself (assumed), and "as last modified by earlier runs" across trees (runner).',
         note=ENVNOTE + '; Query::verif_single stands for a query over one entity',
-        explanation='EntityLocal exposure and cleanup_reactor_data bounded/complete@shape (Kani); supporting contracts proved (Verus); add/remove command pairs and runner not covered'),
+        explanation='add/remove command contracts proved (Verus, generic); EntityLocal exposure and cleanup_reactor_data bounded/complete@shape (Kani); runner not covered'),
     'C12': dict(category='other', design_ref='DESIGN.md 5/C12',
         text='Verus proves on the verbatim text of command_queue.rs (all lengths) that the postponed-command buffer is FIFO (push appends, remove hands over everything in order, append concatenates, pop_front = head) and, with lemma L1 (unbounded, any interleaving), that parked event metadata is a per-system FIFO given the contract of *AccessTracker::start; that contract (claims the OLDEST entry of the system, the other entries keep their ORDER) is discharged by Kani on the real start() of all four trackers for every content of parked lists of length 0..3 (quick) / 0..5 (thorough). Level other, not proof: start() is complete per list length only, and the runner replaying its buffer front-to-back is not under contract.',
         note=ENVNOTE + '; Vec/VecDeque specs of vstd; core::mem::replace assume_specification; syscommand_runner (replay order of the buffer) not covered',
